@@ -15,6 +15,7 @@ No assumption is made on `fs0`: any association list (sorted or not).
 -/
 import BBProofs.Multiround
 import BBProofs.RefPolicy
+import BBProofs.GenEq9
 
 namespace BB.MR
 open BB
@@ -125,5 +126,32 @@ example : FS.Sorted [("clusters.pkl", Content.clusters [[0]]), ("notes.txt", Con
       rw [str_lt_iff, bufName_toList]; decide
   · rw [← Bool.not_eq_true, isRoundFile_iff]; decide
   · simp [isFinalFile]
+
+/-! ### the code: `multiround._pickle_dump_atomic` as translated from `/repo` on this run -/
+
+/-- code: a result file (`clusters.pkl`, the centroid file) is published by exactly these effects — pickle into the sibling
+`<name>.tmp`, close it, rename it onto the final name -/
+theorem C14_code_dump_effects (expf : Rat → Rat) (obj : PV) (parent name : String) :
+    BBGen._pickle_dump_atomic expf obj (PV.str name) (PV.str parent)
+      = [PV.str "open", PV.str (parent ++ "/" ++ (name ++ ".tmp")), PV.str "wb",
+         PV.str "pickle.dump", PV.str (parent ++ "/" ++ (name ++ ".tmp")), PV.str "obj",
+         PV.str "close", PV.str (parent ++ "/" ++ (name ++ ".tmp")),
+         PV.str "os.replace", PV.str (parent ++ "/" ++ (name ++ ".tmp")), PV.str "path"] :=
+  gen_dump_atomic expf obj parent name
+
+/-- code: … so the single atomic write by which the model publishes a result file (`FS.write` in `multiroundTrace`) is what an
+observer of the final name sees: the old content at every interruption point before the last effect, the complete new object
+after it, never a torn file; no temporary name is left -/
+theorem C14_code_dump_atomic (expf : Rat → Rat) (obj : PV) (parent name : String) :
+    pubTrace (parent ++ "/" ++ (name ++ ".tmp")) (FinalC.old, TmpC.absent)
+        (BBGen._pickle_dump_atomic expf obj (PV.str name) (PV.str parent))
+      = [(FinalC.old, TmpC.torn), (FinalC.old, TmpC.full), (FinalC.old, TmpC.full), (FinalC.new, TmpC.absent)] :=
+  gen_dump_atomic_trace expf obj parent name
+
+/-- the reading of the effects is not vacuous: writing the final name in place would be seen torn -/
+example : pubTrace "d/x.tmp" (FinalC.old, TmpC.absent)
+    [PV.str "open", PV.str "path", PV.str "wb", PV.str "pickle.dump", PV.str "path", PV.str "obj", PV.str "close", PV.str "path"]
+    = [(FinalC.torn, TmpC.absent), (FinalC.new, TmpC.absent), (FinalC.new, TmpC.absent)] := by
+  decide +kernel
 
 end BB.MR
